@@ -7,11 +7,11 @@ sys.path.insert(0, ROOT)
 from sa.selftest import _copy_repo, PY
 only = set(a.upper() for a in sys.argv[1:])
 PIDS = [f"C{i:02d}" for i in range(1, 21)]
-pats = sorted(glob.glob("/tmp/benign_out/C*/[abc]/patch.diff")) + sorted(glob.glob(os.path.join(ROOT, "seeded", "benign", "*", "patch.diff")))
+pats = (sorted(glob.glob(os.path.join(ROOT, "seeded", "benign", "*", "patch.diff"))) or sorted(glob.glob("/tmp/benign_out/C*/[abc]/patch.diff")))
 
 
 def run(p):
-    name = "/".join(p.split("/")[-3:-1])
+    name = p.split("/")[-2] if "/benign/" in p else "-".join(p.split("/")[-3:-1])
     d = _copy_repo("/repo")
     out = []
     try:
@@ -29,7 +29,7 @@ def run(p):
     return name, out
 
 
-pats = [p for p in pats if not only or p.split("/")[-3] in only]
+pats = [p for p in pats if not only or (p.split("/")[-2].split("-")[0] if "/benign/" in p else p.split("/")[-3]) in only]
 with cf.ThreadPoolExecutor(max_workers=8) as ex:
     res = list(ex.map(run, pats))
 bad = 0
